@@ -399,12 +399,12 @@ impl Lib {
     }
 }
 
-fn factorial(n: usize) -> u64 {
+pub fn factorial(n: usize) -> u64 {
     (1..=n as u64).product::<u64>().max(1)
 }
 
 /// k-th permutation of 0..n (lexicographic)
-fn nth_perm(n: usize, mut k: u64) -> Vec<usize> {
+pub fn nth_perm(n: usize, mut k: u64) -> Vec<usize> {
     let mut items: Vec<usize> = (0..n).collect();
     let mut out = vec![];
     for i in (0..n).rev() {
